@@ -6,6 +6,7 @@ CONSTANTS
  Pages = {0, 1, 2}
  TagDels = {1}
  SubjSel = {"ror", "split"}
+ Spells = {"dig"}
  MaxOps = 5
  MaxConc = 1
  SameSubject = TRUE
@@ -17,6 +18,7 @@ CONSTANTS
  ListConc = FALSE
  CowIndex = TRUE
  InvAfterDel = TRUE
+ NormKey = TRUE
 INIT MInit
 NEXT MNext
 VIEW MView
